@@ -354,6 +354,12 @@ def _check_param_mutation(ck, fn: FunctionInfo, pname: str, site):
                     if isinstance(v, (ast.List, ast.ListComp)) or (isinstance(v, ast.Call) and isinstance(v.func, ast.Name)
                                                                   and v.func.id in ("list", "sorted")):
                         fresh = True
+                    if isinstance(v, ast.Subscript) and isinstance(v.slice, ast.Slice):
+                        fresh = True          # a slice of a list is a new list
+                    if isinstance(v, ast.BinOp) and isinstance(v.op, ast.Add) and any(
+                            isinstance(x, (ast.List, ast.ListComp)) or (isinstance(x, ast.Subscript) and isinstance(x.slice, ast.Slice))
+                            for x in (v.left, v.right)):
+                        fresh = True          # so is a concatenation
             # the mutation must precede the construction
             before = True
             for n in ast.walk(cs.caller.node):
